@@ -3,6 +3,7 @@ CONSTANTS
   OracleN = 7
   Starts = {"k4", "k5", "k33"}
   GlueK5 = TRUE
+  CrossEdge = TRUE
   Randomised = FALSE
 INIT Init
 NEXT Next
